@@ -33,6 +33,23 @@ def cases(O):
            "function f(a){ return a?.prototype.trim(); }", "const f = (a) => a;", "x = a?.b?.c", "class A { static { } }"]
     for i, code in enumerate(odd):
         cs.append({"id": "c12odd-%d" % i, "config": vlib.default_config(), "calls": [{"code": code, "file": "odd.js"}], "opts": {}})
+    # every way a sourceMappingURL reference can be present, usable or not, with chaining and comments on or off:
+    # a modified result carries its prologue, hook calls and ONE trailer whatever happens to the original map
+    import base64, json as _json
+    good = "data:application/json;base64," + base64.b64encode(_json.dumps({"version": 3, "sources": ["o.ts"], "names": [], "mappings": "AAAA;AACA"}).encode()).decode()
+    refs = ["nowhere.map", "locked.map", "data:application/json;base64,@@@", "bad.map", "idx.map", "", good, "ok.map", "/abs/ok.map", "dir/../ok.map"]
+    fs = {"bad.map": {"data": "{ not json"}, "locked.map": {"err": "EACCES"}, "ok.map": {"data": _json.dumps({"version": 3, "sources": ["o.ts"], "names": [], "mappings": "AAAA"})},
+          "/abs/ok.map": {"data": _json.dumps({"version": 3, "sources": ["o.ts"], "names": [], "mappings": "AAAA"})},
+          "idx.map": {"data": _json.dumps({"version": 3, "sections": [{"offset": {"line": 0, "column": 0}, "map": {"version": 3, "sources": ["o.ts"], "names": [], "mappings": "AAAA"}}]})}}
+    progs = ["function f(a,b){ return a + b; }", "const k = [1,2].join('');", "function g(s){ return s.trim(); }\nconst z = 1;"]
+    k = 0
+    for ref in refs:
+        for prog in progs:
+            for chain in (True, False):
+                for comments in (True, False):
+                    k += 1
+                    cs.append({"id": "c12ref-%d" % k, "config": vlib.default_config(chainSourceMap=chain, comments=comments), "fs": fs,
+                               "calls": [{"code": prog + "\n//# sourceMappingURL=" + ref + "\n", "file": "r.js"}], "opts": {}})
     return cs
 
 
